@@ -96,6 +96,10 @@ def run(ctx):
                 inputs.append({"hex": assemble(ops).hex(), "named": named_of(ops), "tag": "canonical"})
             except Exception:  # noqa: BLE001
                 pass
+    for codec in ("hz", "punycode", "uu_codec", "bz2_codec", "idna", "cp037", "utf_16", "rot_13", "zlib_codec"):
+        for m, n in (("_codecs", "encode"), ("_codecs", "decode"), ("_codecs", "lookup"), ("codecs", "getencoder")):
+            ops = [{"o": "GLOBAL", "m": m, "n": n}, O("MARK"), K("abc"), K(codec), O("TUPLE"), O("REDUCE"), O("STOP")]
+            inputs.append({"hex": assemble(ops).hex(), "named": sorted(set(named_of(ops)) | {codec}), "tag": "codec"})
     for data, tag in genvalues.natural_pickles(ctx.rng, 40 if ctx.quick else 600):
         if len(data) < 5000:
             inputs.append({"hex": data.hex(), "named": ["verif_nat"], "tag": "natural"})
